@@ -42,6 +42,18 @@ T.update({
                 ref="DESIGN.md 6/C16", note=REGMC_NOTE + " 'Any optimisation level' is covered as that pair of profiles."),
 })
 
+T.update({
+    'C11': dict(engine='regmc', technique="explicit-state model checking of the product (generated object x reference register): hand sweeper fixed point over all 2^N states for N<=16, stateright BFS (fixed point N<=12, depth-bounded from a stated alphabet for wide bases)",
+                text="Product machine over mixed layouts of every non-native base: all states initial and all actions to a fixed point for N<=16 (closure reported), depth-2/3 BFS from A(N) for wide bases; in every reached state raw_value() must not panic and be < 2^N, every getter must agree between the object and its re-wrap, the object must equal its re-wrap (storage), and raw_value() must equal the reference register.",
+                ref="DESIGN.md 6/C11", note=REGMC_NOTE + " For bases wider than 16 bits the claim is 'no violation within depth d from A(N) with the stated argument alphabet'."),
+    'C12': dict(engine='regmc', technique="explicit-state model checking of the product (generated object x per-bit shadow) with stateright BFS and a hand-written frontier sweeper; closure of the full state set for N<=16 gives all history lengths by induction",
+                text="Mixed layouts with overlapping fields and overlapping array elements, one per base; N<=16: every state x every write action, successor compared bit for bit with the shadow and observed through every getter, state set closed => histories of every length; wide bases: depth-2 (thorough: 3) BFS from A(N); stateright and the sweeper must agree on the unique-state counts for N<=12.",
+                ref="DESIGN.md 6/C12", note=REGMC_NOTE + " For bases wider than 16 bits histories are bounded by the stated depth."),
+    'C13': dict(engine='regmc', technique="bounded-exhaustive enumeration of builder layouts x argument tuples (full product up to a cap), builder chain vs fold of with_ from DEFAULT/ZERO and vs the reference register",
+                text="All compositions of N<=8 (thorough 10) bits into 1-4 fields in several declaration orders, with default / read-only part / uncovered gap, arrays of every K on u8/u16 and large K on wide bases, multi-range/interleaved/signed/enum/nested steps, arbitrary-int bases; every argument tuple of the full product (<= 65536, thorough 2^22) or one-factor-at-a-time beyond it.",
+                ref="DESIGN.md 6/C13", note=REGMC_NOTE),
+})
+
 
 def main():
     sys.path.insert(0, os.path.join(ROOT, "engine"))
